@@ -98,8 +98,9 @@ def op_constructor_only_in_sibling(rng, spec, m):
     nests = _nested_bps(spec)
     if not nests:
         return None
-    cands = [t for t in used if t in spec["types"] and spec["types"][t]["lc"] != "singleton"
-             and any(m.reg[x][0] == () for (x, _) in used[t])]
+    # (singletons, prebuilt types and configuration entries included: a registration in a nested blueprint is invisible
+    # to the parent and to the siblings whatever the lifecycle)
+    cands = [t for t in used if t in spec["types"] and any(m.reg[x][0] == () for (x, _) in used[t])]
     if not cands:
         return None
     t = rng.choice(cands)
@@ -401,7 +402,7 @@ OPERATORS = {
 # operators that edit constructors (inputs, fallibility, registrations): a state input (prebuilt type / configuration entry)
 # has none of those, so the planted twin turns every state input back into a plain singleton constructor first
 DEMOTE_INPUTS = {"dependency_cycle", "singleton_depends_on_request_scoped", "singleton_registered_in_two_blueprints",
-                 "clone_if_necessary_without_clone", "missing_constructor", "constructor_only_in_sibling"}
+                 "clone_if_necessary_without_clone"}
 
 
 def demote_state_inputs(spec):
@@ -414,8 +415,19 @@ def demote_state_inputs(spec):
                 c.pop("ann_cloning")
 
 
+def plain_lifecycles(spec):
+    """Operators add and move registrations: the lifecycle in effect goes back into the attribute, so that every registration
+    of a constructor means the same."""
+    for c in spec["ctors"].values():
+        c.pop("ann_lc", None)
+    for bp, _i, it in _bp_items(spec["bp"]):
+        if it[0] == "ctor" and len(it) > 2 and isinstance(it[2], dict):
+            it[2].pop("lc", None)
+
+
 def plant(rng, base_spec, op_name):
     spec = copy.deepcopy(base_spec)
+    plain_lifecycles(spec)
     if op_name in DEMOTE_INPUTS:
         demote_state_inputs(spec)
     m = Model(spec)
